@@ -364,7 +364,14 @@ func (g *WireGen) genComb(c *Comb, malformed float64, nkeys *int) []string {
 			return []string{[]string{"3600000", "86400000", "0", "-5", "7200000"}[g.pick(5)]}
 		}
 		if !bad && (d == "at" || d == "atsec") {
+			if g.chance(0.2) {
+				// an instant that has already passed (an hour ago, the epoch)
+				return []string{[]string{strconv.FormatInt(g.NowSec-3600, 10), "1", "0"}[g.pick(3)]}
+			}
 			return []string{strconv.FormatInt(g.NowSec+int64(3600*(1+g.pick(3))), 10)}
+		}
+		if !bad && d == "atms" && g.chance(0.2) {
+			return []string{[]string{strconv.FormatInt((g.NowSec-3600)*1000+7, 10), "1", "0"}[g.pick(3)]}
 		}
 		if !bad && d == "atms" {
 			// not only whole seconds
